@@ -135,6 +135,31 @@ func InitExportingProcess(input ExporterInput) (*ExportingProcess, error) {
 				ExtendedMasterSecret: dtls.RequireExtendedMasterSecret,
 				ServerName:           tlsConfig.ServerName,
 			}
+			// pion/dtls checks the name of the server certificate only against a ServerName that
+			// is a DNS name: with an empty ServerName, or an IP address, it verifies the chain
+			// but no name at all. Check the name ourselves in that case: against ServerName or,
+			// if it is empty, against the host used to contact the server (which is what
+			// crypto/tls does for the TCP transport).
+			if tlsConfig.ServerName == "" || net.ParseIP(tlsConfig.ServerName) != nil {
+				expectedName := tlsConfig.ServerName
+				if expectedName == "" {
+					host, _, err := net.SplitHostPort(input.CollectorAddress)
+					if err != nil {
+						return nil, err
+					}
+					expectedName = host
+				}
+				config.VerifyPeerCertificate = func(rawCerts [][]byte, _ [][]*x509.Certificate) error {
+					if len(rawCerts) == 0 {
+						return fmt.Errorf("the server did not present a certificate")
+					}
+					leaf, err := x509.ParseCertificate(rawCerts[0])
+					if err != nil {
+						return err
+					}
+					return leaf.VerifyHostname(expectedName)
+				}
+			}
 			udpAddr, err := net.ResolveUDPAddr(input.CollectorProtocol, input.CollectorAddress)
 			if err != nil {
 				return nil, err
